@@ -99,6 +99,7 @@ macro_rules! c13_instance {
         #[kani::stub(<std::task::Waker as std::ops::Drop>::drop, crate::verif_lib__support::stub_waker_drop)]
         fn $name() {
             step($pat);
+            kani::cover!(true, "end of harness reachable (assumptions satisfiable, no unconditional failure)");
         }
     };
 }
@@ -142,4 +143,5 @@ c13_instance!(c13_1_table_1110, 0b1110);
 #[kani::proof]
 fn c13_2_backlog_constants() {
     assert!(ACCEPT_QUEUE_MAX_SYNS == 32 && MAX_CONNECTING_PER_ADDR == 4, "C13: fixed backlog bounds");
+    kani::cover!(true, "end of harness reachable (assumptions satisfiable, no unconditional failure)");
 }
